@@ -30,7 +30,7 @@
 //   C07 leaf  <proto> <cfg> ids=<ids> changed=<c>  => leaves=<k> same=<r<round>.<b|u>:<path>,…|->
 //                                                    long leaves of the changed party's own messages whose
 //                                                    value is identical in run A and run B_c (array indices
-//                                                    kept; at most 24 listed, then more:<n>)
+//                                                    kept; at most 256 listed, then more:<n>)
 //
 // Every party's stream is wrapped in a recording reader (c07obs.go): the reads are attributed to the
 // executed step through the protocol layer's per-step byte counts.  Executions of a case run
